@@ -8,6 +8,8 @@ the lock-step correspondence ties to the real `Emulator`.
 import ZxVerif.Model.Spectrum
 import ZxVerif.Props.C02
 import ZxVerif.Props.C05
+import ZxVerif.Props.C04
+import ZxVerif.Lemmas.Z80Closed
 namespace ZxVerif.C05Sys
 open ZxVerif.Z80 ZxVerif.Machine ZxVerif.Spectrum
 
@@ -74,5 +76,124 @@ theorem bus_wait_conserves (z : ZX) (a : BitVec 16) (clk : Nat) :
   split
   · rw [C05.wait_conserves, C05.wait_conserves]; omega
   · rw [C05.wait_conserves]; omega
+
+/-! ### Whole programs: time never runs backwards and is never lost -/
+
+/-- emulated time only moves forward and the machine kind never changes -/
+def TimeFwd (z z' : ZX) : Prop := z'.ctl.kind = z.ctl.kind ∧ C05.total z.ctl ≤ C05.total z'.ctl
+
+theorem wait_fwd (c : Ctl) (k : Nat) :
+    (c.waitInternal k).kind = c.kind ∧ C05.total c ≤ C05.total (c.waitInternal k) := by
+  refine ⟨C05.waitInternal_kind c k, ?_⟩
+  rw [C05.wait_conserves]; omega
+
+theorem chain {a b c : Ctl} (h1 : b.kind = a.kind ∧ C05.total a ≤ C05.total b)
+    (h2 : c.kind = b.kind ∧ C05.total b ≤ C05.total c) : c.kind = a.kind ∧ C05.total a ≤ C05.total c :=
+  ⟨h2.1.trans h1.1, Nat.le_trans h1.2 h2.2⟩
+
+theorem mreq_fwd (c : Ctl) (a : BitVec 16) (k : Nat) :
+    (c.waitMreq a k).kind = c.kind ∧ C05.total c ≤ C05.total (c.waitMreq a k) := by
+  unfold Ctl.waitMreq Ctl.doContention
+  split
+  · exact chain (wait_fwd c _) (wait_fwd _ k)
+  · exact wait_fwd c k
+
+theorem ioFirst_fwd (c : Ctl) (p : BitVec 16) :
+    (c.ioContentionFirst p).kind = c.kind ∧ C05.total c ≤ C05.total (c.ioContentionFirst p) := by
+  unfold Ctl.ioContentionFirst Ctl.doContention
+  split
+  · exact chain (wait_fwd c _) (wait_fwd _ 1)
+  · exact wait_fwd c 1
+
+theorem ioLast_fwd (c : Ctl) (p : BitVec 16) :
+    (c.ioContentionLast p).kind = c.kind ∧ C05.total c ≤ C05.total (c.ioContentionLast p) := by
+  unfold Ctl.ioContentionLast Ctl.doContentionAndWait Ctl.doContention
+  split
+  · exact wait_fwd c _
+  · split
+    · exact chain (chain (wait_fwd c _) (wait_fwd _ _)) (wait_fwd _ _)
+    · exact wait_fwd c 2
+
+theorem write7ffd_clock (c : Ctl) (v : BitVec 8) :
+    (c.write7ffd v).kind = c.kind ∧ (c.write7ffd v).frameClocks = c.frameClocks ∧
+    (c.write7ffd v).passedFrames = c.passedFrames := by
+  unfold Ctl.write7ffd
+  split
+  · exact ⟨rfl, rfl, rfl⟩
+  · split
+    · exact ⟨rfl, rfl, rfl⟩
+    · split <;> exact ⟨rfl, rfl, rfl⟩
+
+theorem timeFwd_closed : BusClosed TimeFwd where
+  refl _ := ⟨rfl, Nat.le_refl _⟩
+  trans h1 h2 := ⟨h2.1.trans h1.1, Nat.le_trans h1.2 h2.2⟩
+  waitMreq a k z := mreq_fwd z.ctl a k
+  waitNoMreq a k z := mreq_fwd z.ctl a k
+  waitInternal k z := wait_fwd z.ctl k
+  readInternal _ _ := ⟨rfl, Nat.le_refl _⟩
+  writeInternal _ _ _ := ⟨rfl, Nat.le_refl _⟩
+  readIo p z := chain (chain (ioFirst_fwd z.ctl p) (ioLast_fwd _ p)) (wait_fwd _ 1)
+  writeIo p v z := by
+    show (ZX.writeIo p v z).ctl.kind = z.ctl.kind ∧ C05.total z.ctl ≤ C05.total (ZX.writeIo p v z).ctl
+    unfold ZX.writeIo
+    have hf := ioFirst_fwd z.ctl p
+    have key : ∀ c1 : Ctl, (c1.kind = z.ctl.kind ∧ C05.total z.ctl ≤ C05.total c1) →
+        ((c1.ioContentionLast p).waitInternal 1).kind = z.ctl.kind ∧
+        C05.total z.ctl ≤ C05.total ((c1.ioContentionLast p).waitInternal 1) :=
+      fun c1 h1 => chain h1 (chain (ioLast_fwd c1 p) (wait_fwd _ 1))
+    split <;> simp only
+    all_goals first
+      | exact key _ hf
+      | (apply key
+         have hw := write7ffd_clock (z.ctl.ioContentionFirst p) v
+         refine ⟨hw.1.trans hf.1, ?_⟩
+         unfold C05.total at *
+         rw [hw.1, hw.2.1, hw.2.2]; exact hf.2)
+  readInterrupt _ := ⟨rfl, Nat.le_refl _⟩
+  reti _ := ⟨rfl, Nat.le_refl _⟩
+  halt _ _ := ⟨rfl, Nat.le_refl _⟩
+  pcCallback _ _ := ⟨rfl, Nat.le_refl _⟩
+
+/-- **Time never runs backwards, whatever program runs**: after any number of instructions
+(interrupt entries, port accesses, paging included) the total emulated time — completed frames ×
+frame length + offset — is at least what it was. -/
+theorem program_time_forward (n : Nat) (s : Cpu) (z : ZX) :
+    C05.total z.ctl ≤ C05.total (Z80.run .hw n (s, z)).2.ctl :=
+  (timeFwd_closed.run .hw n (s, z)).2
+
+/-- every executed instruction (or interrupt entry + instruction, or prefix byte) costs at least
+the 4 T-states of its first opcode fetch -/
+theorem step_costs_at_least_4 (s : Cpu) (z : ZX) :
+    C05.total z.ctl + 4 ≤ C05.total (Spectrum.step (s, z)).2.ctl := by
+  have hfetch : ∀ (s1 : Cpu) (z1 : ZX),
+      C05.total z1.ctl + 4 ≤ C05.total (fetchByte 4 s1 z1).2.2.ctl := by
+    intro s1 z1
+    show C05.total z1.ctl + 4 ≤ C05.total (z1.ctl.waitMreq s1.pc 4)
+    unfold Ctl.waitMreq Ctl.doContention
+    split
+    · rw [C05.wait_conserves, C05.wait_conserves]; omega
+    · rw [C05.wait_conserves]; omega
+  -- interrupt check: forward; first fetch: + at least 4; rest of the instruction and pc_callback: forward
+  have h1 := (timeFwd_closed.k_checkInterrupt s (timeFwd_closed.refl z)).2
+  obtain ⟨s', h2⟩ := timeFwd_closed.execOne_after_fetch .hw (checkInterrupt s z).1 (checkInterrupt s z).2
+  have h3 := hfetch s' (checkInterrupt s z).2
+  have h4 : (Spectrum.step (s, z)).2.ctl =
+      (execOne .hw (checkInterrupt s z).1 (checkInterrupt s z).2).2.ctl := rfl
+  rw [h4]
+  exact Nat.le_trans (Nat.le_trans (Nat.add_le_add_right h1 4) h3) h2.2
+
+/-- a run of `n` steps takes at least `4·n` T-states: programs cannot stall emulated time -/
+theorem program_time_progress (n : Nat) (s : Cpu) (z : ZX) :
+    C05.total z.ctl + 4 * n ≤ C05.total (Z80.run .hw n (s, z)).2.ctl := by
+  induction n generalizing s z with
+  | zero => exact Nat.le_refl _
+  | succ n ih =>
+    simp only [Z80.run]
+    have h1 := step_costs_at_least_4 s z
+    have h2 := ih (Z80.emulate .hw (s, z)).1 (Z80.emulate .hw (s, z)).2
+    have : Z80.emulate .hw (s, z) = ((Z80.emulate .hw (s, z)).1, (Z80.emulate .hw (s, z)).2) := rfl
+    rw [← this] at h2
+    unfold Spectrum.step at h1
+    omega
 
 end ZxVerif.C05Sys
